@@ -71,6 +71,7 @@ func TestSweep(t *testing.T) {
 		Oracle.One(t, env, rec, "sweep", &Case{S: e.S.Name, D: e.D.Name, Amps: bAmps[ds], Fix: 6}) // source two frames longer than the destination
 		Oracle.One(t, env, rec, "sweep", &Case{S: e.S.Name, D: e.D.Name, Amps: bAmps[ds], Fix: 7}) // destination two frames longer than the source
 		Oracle.One(t, env, rec, "sweep", &Case{S: e.S.Name, D: e.D.Name, Amps: bAmps[ds], Fix: 10}) // output in pieces: two adjacent destination windows, the source goes on beyond the first
+		Oracle.One(t, env, rec, "sweep", &Case{S: e.S.Name, D: e.D.Name, Amps: bAmps[ds], Fix: 11}) // same-type instantiations: source and destination are adjacent windows of one parent
 		Oracle.One(t, env, rec, "sweep", &Case{S: e.S.Name, D: e.D.Name, Amps: bAmps[ds], Fix: 8}) // the destination buffer is shared with every other instantiation of this destination type
 		Oracle.One(t, env, rec, "sweep", &Case{S: e.S.Name, D: e.D.Name, Amps: bAmps[ds], Fix: 9}) // the source was converted into a shorter destination before
 		if ds == 8 {                                                                               // every 8-bit code, alone in short buffers and repeated in long ones
